@@ -114,7 +114,8 @@ Definition reap_prims (prog : entry -> list stage) (disp : farmer_kind -> entry)
 (* ---- shuffle wiring ---- *)
 Inductive src := SrcArg | SrcSelf | SrcSaved | SrcNone.
 Record wiring := {
-  w_sow_combos_sets_self : bool;   (* sow_combos stores its shuffle argument in self.shuffle *)
+  w_sow_combos_default : option Z; (* default of sow_combos' shuffle parameter: Some 0 (False) or None *)
+  w_sow_combos_sets_self : bool;   (* sow_combos stores its shuffle argument in self.shuffle unless it is None *)
   w_sow_combos_run : src;          (* what sow_combos passes to combo_runner_core *)
   w_sow_cases_sets_self : bool;
   w_sow_cases_run : src;           (* what sow_cases passes to case_runner *)
@@ -124,7 +125,7 @@ Record wiring := {
   w_reap_ds : src                  (* reap_combos_to_ds *)
 }.
 Definition model_wiring : wiring :=
-  {| w_sow_combos_sets_self := true; w_sow_combos_run := SrcArg;
+  {| w_sow_combos_default := Some 0; w_sow_combos_sets_self := true; w_sow_combos_run := SrcArg;
      w_sow_cases_sets_self := false; w_sow_cases_run := SrcSelf;
      w_saved := SrcSelf; w_sync_restores := false;
      w_reap_raw := SrcSaved; w_reap_ds := SrcSaved |}.
@@ -134,13 +135,21 @@ Definition model_wiring : wiring :=
 Definition eval_src (s : src) (arg self saved : Z) : Z :=
   match s with SrcArg => arg | SrcSelf => self | SrcSaved => saved | SrcNone => 0 end.
 
-(* sowing: (flag used to order the sowing, flag saved with the crop) *)
-Definition sow_flags (w : wiring) (via_cases : bool) (arg self0 : Z) : Z * Z :=
-  let self1 := if via_cases
-               then (if w_sow_cases_sets_self w then arg else self0)
-               else (if w_sow_combos_sets_self w then arg else self0) in
-  (eval_src (if via_cases then w_sow_cases_run w else w_sow_combos_run w) arg self1 0,
-   eval_src (w_saved w) arg self1 0).
+(* sowing: (flag used to order the sowing, flag saved with the crop).  [arg] is the shuffle argument of the
+   call: None when the caller leaves it out (sow_combos then sees its parameter default; `shuffle=None` is
+   falsy for the runner and is not stored); sow_cases has no such argument *)
+Definition sow_flags (w : wiring) (via_cases : bool) (arg : option Z) (self0 : Z) : Z * Z :=
+  let eff := if via_cases then None else match arg with Some a => Some a | None => w_sow_combos_default w end in
+  let sets := if via_cases then w_sow_cases_sets_self w else w_sow_combos_sets_self w in
+  let self1 := match eff with Some a => if sets then a else self0 | None => self0 end in
+  let a := match eff with Some a => a | None => 0 end in
+  (eval_src (if via_cases then w_sow_cases_run w else w_sow_combos_run w) a self1 0,
+   eval_src (w_saved w) a self1 0).
+(* the attribute of the sowing object afterwards *)
+Definition self_after_sow (w : wiring) (via_cases : bool) (arg : option Z) (self0 : Z) : Z :=
+  let eff := if via_cases then None else match arg with Some a => Some a | None => w_sow_combos_default w end in
+  let sets := if via_cases then w_sow_cases_sets_self w else w_sow_combos_sets_self w in
+  match eff with Some a => if sets then a else self0 | None => self0 end.
 
 (* reaping by an object whose attribute is [self_r] (the sowing object's attribute, or the
    constructor default 0 of an object re-created from disk unless loading restores it) *)
